@@ -210,7 +210,7 @@ func p1C07Exact(r *rng, w *bufio.Writer) bool {
 		// a list-valued modifier written again.
 		// c07_text_domain_again_iff (hhas: the rule has `$domain`):
 		//   (r.isGeneric && !(posVals vs).isEmpty, !r.isGeneric && (posVals vs).isEmpty)
-		// c07_text_list_again_tie (hhas: the rule counts the modifier; hknown for `$dnstype`): (false, false)
+		// c07_text_list_again_tie (hhas: the rule counts the modifier): (false, false)
 		var have []string
 		for _, m := range ms {
 			if p1IsList(m.kind) {
@@ -224,8 +224,8 @@ func p1C07Exact(r *rng, w *bufio.Writer) bool {
 		vs := lGenVals(r, p1Pool(k), k != "denyallow")
 		ms2 = append(ms2, lMod{kind: k, vals: vs})
 		kind = "again-" + k
-		want = func(f, f2 *rules.NetworkRule) ([2]bool, bool) {
-			raw, raw2 := f.VerifRaw(), f2.VerifRaw()
+		want = func(f, _ *rules.NetworkRule) ([2]bool, bool) {
+			raw := f.VerifRaw()
 			switch k {
 			case "domain":
 				hhas := len(raw.PermittedDomains) != 0 || len(raw.RestrictedDomains) != 0
@@ -235,10 +235,7 @@ func p1C07Exact(r *rng, w *bufio.Writer) bool {
 			case "denyallow":
 				return tie, len(raw.DenyAllowDomains) != 0
 			case "dnstype":
-				hhas := len(raw.PermittedDNSTypes) != 0 || len(raw.RestrictedDNSTypes) != 0
-				hknown := len(raw2.PermittedDNSTypes) != 0 || len(raw2.RestrictedDNSTypes) != 0
-
-				return tie, hhas && hknown
+				return tie, len(raw.PermittedDNSTypes) != 0 || len(raw.RestrictedDNSTypes) != 0
 			case "ctag":
 				return tie, len(raw.PermittedClientTags) != 0 || len(raw.RestrictedClientTags) != 0
 			default:
